@@ -208,14 +208,23 @@ func (s *snapshotSink) done(err error) (snapshotMeta, error) {
 		return s.meta, err
 	}
 	file = metaFile(s.snaps.dir, s.meta.index)
+	if verif {
+		verifPoint("snap.premeta", s.snaps.dir)
+	}
 	if err = os.Rename(temp.Name(), file); err != nil {
 		return s.meta, err
 	}
 	temp = nil
+	if verif {
+		verifPoint("snap.postmeta", s.snaps.dir)
+	}
 	s.snaps.mu.Lock()
 	s.snaps.index, s.snaps.term = s.meta.index, s.meta.term
 	s.snaps.mu.Unlock()
 	_ = s.snaps.applyRetain() // todo: trace error
+	if verif {
+		verifPoint("snap.retained", s.snaps.dir)
+	}
 	return s.meta, nil
 }
 
